@@ -220,6 +220,12 @@ func ParseField(v reflect.Value, bytes []byte, params fieldParameters) error {
 			}
 		}
 
+		for i := range structParams {
+			if structParams[i].tagNumber == nil {
+				return fmt.Errorf("member without tag number is not supported: " + structType.Field(i).Name)
+			}
+		}
+
 		offset := int64(talOff)
 		totalLen := int64(len(bytes))
 
